@@ -237,9 +237,10 @@ Proof.
   - destruct (IH x H) as [b [Hb Hf]]. exists b. split; [right; exact Hb|exact Hf].
 Qed.
 
-(* no comparison on a column named timestamp, and every atom holds on the row *)
+(* no comparison on a column named timestamp, relative intervals on which Go and DuckDB agree,
+   and every atom holds on the row *)
 Definition atoms_hold (r : row) (now : Z) (l : list atom) : Prop :=
-  forall a, In a l -> atom_ok a = true /\ eval_atom r now a = true.
+  forall a, In a l -> (atom_ok a = true /\ rel_agree now a = true) /\ eval_atom r now a = true.
 
 Lemma try_cmp_time_sound : forall r now l op v,
   atoms_hold r now l -> try_cmp time_sfx op l = Some v -> cmp op (r_time r) v = true.
@@ -247,7 +248,7 @@ Proof.
   intros r now l op v Hh H. unfold try_cmp in H.
   destruct (find_first (m_cmp time_sfx op) l) as [t|] eqn:E; [|discriminate].
   destruct (l_ok t); [|discriminate]. injection H as H. subst v.
-  apply find_first_In in E. destruct E as [a [Hin Hm]]. destruct (Hh a Hin) as [Hon Hev].
+  apply find_first_In in E. destruct E as [a [Hin Hm]]. destruct (Hh a Hin) as [[Hon Hra] Hev].
   destruct a as [c o lit| | |]; cbn in Hm; try discriminate.
   destruct (time_sfx c && opb o op) eqn:E2; [|discriminate]. injection Hm as Hm. subst lit.
   apply andb_true_iff in E2. destruct E2 as [Hs Ho].
@@ -259,7 +260,7 @@ Lemma try_cmp_ts_none : forall r now l op, atoms_hold r now l -> try_cmp ts_sfx 
 Proof.
   intros r now l op Hh. unfold try_cmp.
   destruct (find_first (m_cmp ts_sfx op) l) as [t|] eqn:E; [|reflexivity].
-  apply find_first_In in E. destruct E as [a [Hin Hm]]. destruct (Hh a Hin) as [Hon Hev].
+  apply find_first_In in E. destruct E as [a [Hin Hm]]. destruct (Hh a Hin) as [[Hon Hra] Hev].
   destruct a as [c o lit| | |]; cbn in Hm; try discriminate.
   destruct (ts_sfx c && opb o op) eqn:E2; [|discriminate].
   apply andb_true_iff in E2. destruct E2 as [Hs _].
@@ -272,7 +273,7 @@ Proof.
   intros r now l a b Hh H. unfold between_ok in H.
   destruct (find_first m_between l) as [[l1 l2]|] eqn:E; [|discriminate].
   destruct (l_ok l1 && l_ok l2); [|discriminate]. injection H as H1 H2. subst.
-  apply find_first_In in E. destruct E as [x [Hin Hm]]. destruct (Hh x Hin) as [Hon Hev].
+  apply find_first_In in E. destruct E as [x [Hin Hm]]. destruct (Hh x Hin) as [[Hon Hra] Hev].
   destruct x as [| |c m1 m2|]; cbn in Hm; try discriminate.
   destruct (time_sfx c) eqn:Hs; [|discriminate]. injection Hm as Hm1 Hm2. subst.
   destruct c; cbn in Hs; try discriminate. cbn in Hev. lia.
@@ -284,14 +285,15 @@ Lemma rel_bound_sound : forall r now l lower v op,
 Proof.
   intros r now l lower v op Hh H. unfold rel_bound in H.
   assert (Hgen : forall add o n u, find_first (m_rel lower add) l = Some (o, n, u) ->
-                 (if lower then is_lower o else is_upper o) = true /\ cmp o (r_time r) (rel_time now add n u) = true).
-  { intros add o n u E. apply find_first_In in E. destruct E as [x [Hin Hm]]. destruct (Hh x Hin) as [Hon Hev].
+                 (if lower then is_lower o else is_upper o) = true /\ cmp o (r_time r) (rel_time_go now add n u) = true).
+  { intros add o n u E. apply find_first_In in E. destruct E as [x [Hin Hm]]. destruct (Hh x Hin) as [[Hon Hra] Hev].
     destruct x as [|c o' ad n' u'| |]; cbn in Hm; try discriminate.
     destruct (time_sfx c && (if lower then is_lower o' else is_upper o') && Bool.eqb ad add) eqn:E2; [|discriminate].
     injection Hm as H1 H2 H3. subst.
     apply andb_true_iff in E2. destruct E2 as [E2 Had]. apply andb_true_iff in E2. destruct E2 as [Hs Hop].
     apply eqb_prop in Had. subst ad.
-    destruct c; cbn in Hs; try discriminate. split; [exact Hop|exact Hev]. }
+    destruct c; cbn in Hs; try discriminate. split; [exact Hop|].
+    cbn in Hra. apply Z.eqb_eq in Hra. rewrite Hra. exact Hev. }
   destruct (find_first (m_rel lower false) l) as [[[o n] u]|] eqn:E1.
   - injection H as H1 H2. subst. apply (Hgen false). exact E1.
   - destruct (find_first (m_rel lower true) l) as [[[o n] u]|] eqn:E2; [|discriminate].
@@ -343,13 +345,16 @@ Proof.
 Qed.
 
 Lemma bounds_sound_conj : forall w now r s e incl,
-  conj_only w = true -> forallb atom_ok (flatten w) = true -> eval_w r now w = true ->
+  conj_only w = true -> forallb atom_ok (flatten w) = true -> forallb (rel_agree now) (flatten w) = true ->
+  eval_w r now w = true ->
   start_of (flatten w) now = Some s -> end_of (flatten w) now = Some (e, incl) ->
   s <= r_time r /\ (if incl then r_time r <= e else r_time r < e).
 Proof.
-  intros w now r s e incl Hc Hon Hev Hs He.
+  intros w now r s e incl Hc Hon Hra Hev Hs He.
   assert (Hh : atoms_hold r now (flatten w)).
-  { intros a Hin. split; [rewrite forallb_forall in Hon; apply Hon; exact Hin|eapply conj_atoms; eauto]. }
+  { intros a Hin. split; [split|eapply conj_atoms; eauto].
+    - rewrite forallb_forall in Hon; apply Hon; exact Hin.
+    - rewrite forallb_forall in Hra; apply Hra; exact Hin. }
   split; [eapply start_of_sound; eauto|eapply end_of_sound; eauto].
 Qed.
 
@@ -404,10 +409,11 @@ Proof.
     unfold classify in Hcl.
     destruct (has_or w) eqn:Hor; [discriminate|]. destruct (has_not w) eqn:Hnot; [discriminate|].
     destruct (forallb atom_ok (flatten w)) eqn:Hon; [|discriminate]. cbn [negb] in Hcl.
+    destruct (forallb (rel_agree now) (flatten w)) eqn:Hra; [|discriminate]. cbn [negb] in Hcl.
     destruct (start_of (flatten w) now) as [s|] eqn:Hs; [|discriminate].
     destruct (end_of (flatten w) now) as [[e incl]|] eqn:He; [|discriminate].
     pose proof (no_or_not_conj w Hor Hnot) as Hc.
-    destruct (bounds_sound_conj w now (snd ir) s e incl Hc Hon Hev Hs He) as [Hlo Hhi].
+    destruct (bounds_sound_conj w now (snd ir) s e incl Hc Hon Hra Hev Hs He) as [Hlo Hhi].
     unfold pruned_hours, extract in Ep. rewrite Hs, He in Ep.
     destruct (gen s e incl) as [hs'|] eqn:Hg; [|discriminate].
     assert (hs' = hs) by (destruct hs'; [discriminate|injection Ep as Ep; exact Ep]). subst hs'.
@@ -421,4 +427,38 @@ Proof.
         unfold hour_of, day_of. rewrite DAY_HOUR. apply Z.div_div; [pose proof HOUR_pos; lia|lia]. }
       rewrite existsb_eqb_In in Hk by exact Hd. discriminate. }
   destruct (filter (file_kept hs) fs) as [|k ks] eqn:Ef; [reflexivity|]. exact Hsel.
+Qed.
+
+(* ==================================================================================== *)
+(* 5. month arithmetic: Go's AddDate and DuckDB's interval arithmetic                    *)
+(* ==================================================================================== *)
+
+Lemma days_from_civil_day : forall y m d, days_from_civil y m d = days_from_civil y m 1 + (d - 1).
+Proof. intros. unfold days_from_civil. cbv zeta. ring. Qed.
+
+Lemma days_in_month_ge_28 : forall y m, 28 <= days_in_month y m.
+Proof.
+  intros y m. unfold days_in_month.
+  destruct (m =? 2); [destruct (is_leap y)|destruct ((m =? 4) || (m =? 6) || (m =? 9) || (m =? 11))]; lia.
+Qed.
+
+(* the two agree from every day of month up to the 28th, for every number of months *)
+Lemma month_agree : forall t n,
+  (let '(_, _, d) := civil_from_days (t / DAY) in d <= 28) -> go_add_months t n = duck_add_months t n.
+Proof.
+  intros t n H. unfold go_add_months, duck_add_months.
+  destruct (civil_from_days (t / DAY)) as [[y m] d].
+  destruct (norm_month y m n) as [y' m'].
+  pose proof (days_in_month_ge_28 y' m'). rewrite Z.min_l by lia.
+  rewrite (days_from_civil_day y' m' d). reflexivity.
+Qed.
+
+(* DuckDB's result is never later than Go's (clamping vs overflow) *)
+Lemma duck_le_go : forall t n, duck_add_months t n <= go_add_months t n.
+Proof.
+  intros t n. unfold go_add_months, duck_add_months.
+  destruct (civil_from_days (t / DAY)) as [[y m] d].
+  destruct (norm_month y m n) as [y' m'].
+  rewrite (days_from_civil_day y' m' (Z.min d (days_in_month y' m'))).
+  assert (0 < DAY) by reflexivity. nia.
 Qed.
